@@ -2,7 +2,7 @@
 
 World: one real `Manager` (real `TrafficTimer`, `Inbound`, `Outbound`) with `task.Clock` as reactor,
 the `Connector` class replaced by a Mock inside this process, and a fake connection object that
-records `send_record()` / `disconnect()`.  A scripted peer answers the Pings that really reached
+records `send_record()` / `disconnect()` and whose transport exercises flow control on the real Outbound.  A scripted peer answers the Pings that really reached
 the connection (`rtt`, every k-th dropped, silent from a time on); connection loss, reconnection
 and stop are scheduled by the case.  All times are multiples of TICK = 1/8 s (exact in binary
 floating point); everything compared is an integer number of ticks.
@@ -33,7 +33,9 @@ TRUSTED = ["Twisted DelayedCall/Clock semantics (a call runs once now >= its tim
            "Connector (mocked): calls connector_connection_made only while the Manager is CONNECTING"]
 RULE = ("leader/follower Manager over task.Clock; intervals {0.5, 1, 30} s; peer policies: rtt from a grid around "
         "0/T/2T (before/at/after an expiry), every k-th ping unanswered, silent from a time on, stale/duplicate/"
-        "unknown pongs; loss, reconnect and stop at arbitrary ticks; thorough adds exhaustive small schedules "
+        "unknown pongs; transport flow control (the real Outbound.pauseProducing/resumeProducing called as the connection's "
+        "transport would) before/at/after expiries, for part of an interval, across loss/reconnect; loss, reconnect and stop "
+        "at arbitrary ticks; thorough adds exhaustive small schedules "
         "(T=4 ticks, every rtt x silence point x loss/stop point); non-trivial = at least one timer expiry observed; "
         "distinct = distinct canonical traces")
 
@@ -174,7 +176,7 @@ class World:
         drops = ";".join(f"{c}@{t}" for c, t in self.drops)
         ab = ";".join(f"{c}@{t}" for c, t in self.abandons)
         return (f"t={self.now()} M={automat_state(m)} role={role} TT={tt} timer={timer} conn={self.cid_of(m._connection)} "
-                f"out={self.cid_of(m._outbound._connection)} pings=[{pings}] nwire={len(self.wire)} wire=[{wire}] "
+                f"out={self.cid_of(m._outbound._connection)} paused={'true' if m._outbound._paused else 'false'} pings=[{pings}] nwire={len(self.wire)} wire=[{wire}] "
                 f"drops=[{drops}] abandons=[{ab}]")
 
     # -- operations (each returns the exception class name or None)
@@ -209,6 +211,11 @@ class World:
             return self.call(lambda: m.rx_RECONNECTING())
         if k == "reconnect":
             return self.call(lambda: m.rx_RECONNECT())
+        if k == "pause":
+            # what the connection's transport does when its send buffer is full (IPushProducer)
+            return self.call(lambda: m._outbound.pauseProducing())
+        if k == "resume":
+            return self.call(lambda: m._outbound.resumeProducing())
         if k == "pong":
             idx = o[1]
             pid = self.ids[idx] if idx < len(self.ids) else b"\xfe\xfd" + (idx % 65536).to_bytes(2, "big")
@@ -253,11 +260,14 @@ def _run(case, T, leader):
     events = []          # oracle's view of the run: (kind, time, data)
     illegal = [None]     # first op the environment was not entitled to
     raised = []          # exceptions out of legal operations
+    before = [(None, 0)]  # (connection in use, pings registered) just before the current operation
+    unwritten = []       # pings generated while a connection was in use that never reached its send_record
     pending = []         # scheduled harness events: [time, seq, op]
     seq = [0]
     seen_wire = [0]
     seen_disc = [0]
     expiries = [0]
+    paused_expiry = [0]
 
     def record(opline, err, kind, data=None, legal_now=True):
         lines.append(opline)
@@ -267,6 +277,12 @@ def _run(case, T, leader):
             tags.append(("timer-raised:" if kind == "adv" else "raised:") + err)
             if legal_now and illegal[0] is None:
                 raised.append((opline, w.now(), err))
+        w.scan_pings()
+        cid0, n0 = before[0]
+        if cid0 is not None and legal_now and illegal[0] is None:
+            for idx in range(n0, len(w.ids)):
+                if not any(c == cid0 and i == idx for c, i, _ in w.wire):
+                    unwritten.append((idx, w.now(), cid0, opline))
         # the oracle judges the run up to (not including) the first illegal operation
         events.append((kind, w.now(), data, not (legal_now and illegal[0] is None), snapshot()))
 
@@ -297,11 +313,17 @@ def _run(case, T, leader):
             return st == "FLUSHING" and leader
         if k == "reconnect":
             return st in ("CONNECTED", "CONNECTING", "LONELY") and not leader
-        if k == "pong":
+        if k in ("pong", "pause", "resume"):
             return w.m._connection is not None
         return True
 
+    def conn_now():
+        c = w.m._connection
+        return None if c is None else getattr(c, "cid", -1)
+
     def do(o):
+        w.scan_pings()
+        before[0] = (conn_now(), len(w.ids))
         if illegal[0] is None and not is_legal(o):
             illegal[0] = (" ".join(str(x) for x in o), "illegal")
             tags.append("illegal:" + o[0])
@@ -328,10 +350,15 @@ def _run(case, T, leader):
                 if 0 < dt < n:
                     k = dt
             tb = [c.getTime() for c in w.timers()]
+            w.scan_pings()
+            before[0] = (conn_now(), len(w.ids))
+            was_paused = w.m._outbound._paused and w.m._connection is not None
             err = w.advance_ticks(k)
             fired = [t for t in tb if t <= w.clock.seconds() + 1e-9]
             if fired:
                 expiries[0] += len(fired)
+                if was_paused:
+                    paused_expiry[0] += 1
             record(f"adv {k}", err, "adv", dict(fired=fired), illegal[0] is None)
             n -= k
 
@@ -368,6 +395,9 @@ def _run(case, T, leader):
     def run_segment(duration, policy):
         seg_start = w.now()
         end = seg_start + duration
+        for a, d in (policy or {}).get("pauses") or []:
+            schedule(seg_start + a, ["pause"])
+            schedule(seg_start + a + d, ["resume"])
         react(policy, seg_start)
         while True:
             pending.sort()
@@ -403,6 +433,10 @@ def _run(case, T, leader):
                 do(["lost"])
                 if leader and policy.get("reconnect_delay") is not None and not w.stop_called:
                     schedule(w.now() + policy["reconnect_delay"], ["remake"])
+            elif o[0] in ("pause", "resume"):
+                if w.m._connection is None:
+                    continue     # the transport that would call this is gone
+                do([o[0]])
             elif o[0] == "remake":
                 if automat_state(w.m) == "FLUSHING":
                     do(["reconnecting"])
@@ -417,7 +451,7 @@ def _run(case, T, leader):
             adv(seg[1])
         elif k == "lost":
             do(["lost"])
-            pending[:] = [p for p in pending if p[2][0] != "pong" and p[2][0] != "lost"]
+            pending[:] = [p for p in pending if p[2][0] not in ("pong", "lost", "pause", "resume")]
         else:
             do(seg)
         react(None, w.now())
@@ -436,7 +470,15 @@ def _run(case, T, leader):
         tags.append("pong-weird")
     if w.abandons:
         tags.append("abandoned")
+    if any(e[0] in ("pause", "resume") for e in events):
+        tags.append("flow-control")
+    if paused_expiry[0]:
+        tags.append("paused-at-expiry")
     viol = oracle(w, events, T, leader, illegal[0], tags)
+    for idx, t, cid, opline in unwritten[:1]:
+        viol.append(("ping-not-written",
+                     f"T={T} ticks: ping #{idx} generated at tick {t} ('{opline}') while connection {cid} was in use was never "
+                     f"handed to its send_record (Outbound paused={w.m._outbound._paused}); the peer cannot answer it"))
     for opline, t, err in raised[:1]:
         viol.append(("monitor-raised", f"T={T} ticks: '{opline}' at tick {t} is a legal event in this state but raised {err}"))
     return Result(lines, exp, viol, tags, nontrivial=expiries[0] > 0, info=dict(expiries=expiries[0]))
@@ -550,10 +592,12 @@ def oracle(w, events, T, leader, illegal, tags):
 SETUP = [["start"], ["please"], ["made"]]
 
 
-def pol(rtt=0, drop_every=0, silent_from=None, loss_delay=None, reconnect_delay=None, rtts=None):
+def pol(rtt=0, drop_every=0, silent_from=None, loss_delay=None, reconnect_delay=None, rtts=None, pauses=None):
     p = dict(rtt=rtt, drop_every=drop_every, silent_from=silent_from, loss_delay=loss_delay, reconnect_delay=reconnect_delay)
     if rtts is not None:
         p["rtts"] = rtts
+    if pauses is not None:
+        p["pauses"] = pauses      # [[start, length]] ticks from the start of the segment: transport flow control
     return p
 
 
@@ -580,6 +624,18 @@ def corpus():
         # follower: never monitors
         out.append(dict(T=T, leader=False, script=SETUP + [["run", 5 * T, pol(rtt=1)], ["lost"], ["adv", 2 * T], ["reconnect"],
                                                             ["made"], ["adv", 3 * T], ["reconnect"], ["lost"], ["adv", T]]))
+        # transport flow control (the send buffer of the connection fills: it pauses the Outbound) around expiries:
+        # from just before to just after one, ending exactly at one, starting exactly at one, a whole interval and more,
+        # a sliver in mid-interval; the peer answers every ping it receives
+        for a, d in ((T - 1, 2), (T - 1, 1), (T, 1), (2 * T - 1, T + 2), (T + 1, 1), (1, 4 * T)):
+            out.append(dict(T=T, leader=True, script=SETUP + [["run", 6 * T, pol(rtt=1, pauses=[[a, d]])]]))
+        # paused when the peer goes silent, paused across a monitor drop + loss + reconnect, paused at stop
+        out.append(dict(T=T, leader=True, script=SETUP + [["run", 9 * T, pol(rtt=1, silent_from=3 * T, pauses=[[2 * T - 1, 5 * T]],
+                                                                          loss_delay=1, reconnect_delay=1)]]))
+        out.append(dict(T=T, leader=True, script=SETUP + [["run", T + 1, pol(rtt=1)], ["pause"], ["lost"], ["adv", 2], ["reconnecting"],
+                                                           ["made"], ["run", 4 * T, pol(rtt=1)], ["pause"], ["adv", T], ["stop"], ["resume"],
+                                                           ["lost"]]))
+        out.append(dict(T=T, leader=False, script=SETUP + [["pause"], ["adv", 2 * T], ["resume"], ["adv", T]]))
     # stale / duplicate / unknown pongs
     out.append(dict(T=4, leader=True, script=SETUP + [["adv", 5], ["pong", 0], ["pong", 0], ["pong", 7], ["adv", 2], ["pong", 1],
                                                        ["adv", 12]]))
@@ -607,6 +663,9 @@ def rand_policy(rng, T):
         p["drop_every"] = rng.choice([2, 3, 4])
     if rng.random() < 0.6:
         p["silent_from"] = rng.randrange(0, 6 * T + 1)
+    if rng.random() < 0.35:
+        p["pauses"] = [[rng.choice([0, 1, T - 1, T, T + 1, 2 * T - 1, 2 * T, rng.randrange(0, 5 * T)]),
+                        rng.choice([1, 2, T - 1, T, T + 1, 3 * T])] for _ in range(rng.randrange(1, 3))]
     if rng.random() < 0.7:
         p["loss_delay"] = rng.choice([0, 1, T - 1, T, 2 * T + 1])
         if rng.random() < 0.8:
@@ -631,13 +690,16 @@ def rand_case(rng, adversarial=False):
             script.append(["run", rng.randrange(0, 3 * T), rand_policy(rng, T)])
             if rng.random() < 0.7:
                 script += [["lost"], ["adv", rng.randrange(0, 3 * T)]]
+        elif r < 0.86:
+            script += [[rng.choice(["pause", "resume"])], ["adv", rng.choice([1, T - 1, T, T + 1])], [rng.choice(["pause", "resume"])]]
         elif r < 0.9:
             script.append(["pong", rng.randrange(0, 6)])
         else:
             script.append(["adv", rng.choice([T - 1, T, T + 1, 2 * T])])
     if adversarial:
         # illegal orders / junk at a random place
-        junk = rng.choice([["made"], ["lost"], ["stop"], ["start"], ["please"], ["reconnecting"], ["reconnect"], ["pong", rng.randrange(0, 9)]])
+        junk = rng.choice([["made"], ["lost"], ["stop"], ["start"], ["please"], ["reconnecting"], ["reconnect"], ["pause"], ["resume"],
+                           ["pong", rng.randrange(0, 9)]])
         script.insert(rng.randrange(0, len(script) + 1), junk)
     return dict(T=T, leader=leader, script=script)
 
@@ -648,6 +710,10 @@ def exhaustive(T=4):
     for rtt in range(0, 2 * T + 2):
         for silent in range(0, 3 * T + 1, 1):
             out.append(dict(T=T, leader=True, script=SETUP + [["run", 6 * T + 2, pol(rtt=rtt, silent_from=silent)]]))
+    # every pause window [a, a+d) over the first two expiries, responsive peer
+    for a in range(0, 2 * T + 2):
+        for d in range(1, T + 3):
+            out.append(dict(T=T, leader=True, script=SETUP + [["run", 5 * T, pol(rtt=1, pauses=[[a, d]])]]))
     for rtt in (0, 1, T - 1, T):
         for cut in range(0, 3 * T + 1):
             for what in ("lost", "stop"):
@@ -693,7 +759,7 @@ def shrink(case):
                 for d in (seg[1] // 2, seg[1] - 1):
                     yield dict(case, script=sc[:i] + [["run", d, seg[2]]] + sc[i + 1:])
             p = seg[2]
-            for key, val in (("drop_every", 0), ("rtts", None), ("loss_delay", None), ("reconnect_delay", None)):
+            for key, val in (("drop_every", 0), ("rtts", None), ("loss_delay", None), ("reconnect_delay", None), ("pauses", None)):
                 if p.get(key):
                     q = dict(p)
                     q[key] = val
